@@ -6,8 +6,11 @@ confirmation appended to meta.json. The worktree is left clean."""
 import json, os, re, shutil, subprocess, sys, glob
 
 pid, var = sys.argv[1], sys.argv[2]
-wt = "/tmp/wt/" + pid
-src = "/tmp/seed/out/%s/%s" % (pid, var)
+WT_BASE = os.environ.get("SEED_WT", "/tmp/wt")
+OUT_BASE = os.environ.get("SEED_OUT", "/tmp/seed/out")
+NAME = os.environ.get("SEED_NAME", var)  # name under /verif/seeded (round 2 stores a->c, b->d)
+wt = WT_BASE + "/" + pid
+src = "%s/%s/%s" % (OUT_BASE, pid, var)
 env = dict(os.environ, GOFLAGS="-mod=mod", GOPROXY="off", GOSUMDB="off", GOTOOLCHAIN="local")
 GO = "go1.26"
 
@@ -31,7 +34,7 @@ def demo_plan():
     for f in glob.glob(os.path.join(demo, "*.go")):
         txt = open(f).read()
         base = os.path.basename(f)
-        m = re.search(r"cp\s+\S*%s\s+\S*?(?:<repo>|\$\w+|/tmp/wt/%s)/([\w/]+?)/?(?:%s)?\s" % (re.escape(base), pid, re.escape(base)), run + "\n")
+        m = re.search(r"cp\s+\S*%s\s+\S*?(?:<repo>|\$\w+|/tmp/wt2?/%s)/([\w/]+?)/?(?:%s)?\s" % (re.escape(base), pid, re.escape(base)), run + "\n")
         d = m.group(1) if m else None
         if d is None:
             pk = re.search(r"^package (\w+)", txt, re.M).group(1).replace("_test", "")
@@ -49,11 +52,14 @@ def run_demo():
         tmp = "/tmp/vs-demo-%s-%s" % (pid, var)
         shutil.rmtree(tmp, ignore_errors=True)
         shutil.copytree(demo, tmp)
+        gm = open(os.path.join(tmp, "go.mod")).read()
+        gm = re.sub(r"=> /tmp/wt2?/C\d\d", "=> " + wt, gm)
+        open(os.path.join(tmp, "go.mod"), "w").write(gm)
         shutil.copy(os.path.join(wt, "go.sum"), os.path.join(tmp, "go.sum"))
-        rc2, out2 = sh("bash -c '%s test -count=1 ./... > /tmp/vs-out.txt 2>&1; echo $?'" % GO, cwd=tmp, timeout=1800)
+        rc2, out2 = sh("bash -c '%s test -count=1 ./... > /tmp/vs-out-%s%s.txt 2>&1; echo $?'" % (GO, pid, var), cwd=tmp, timeout=1800)
         code = int(out2.strip().splitlines()[-1])
         shutil.rmtree(tmp, ignore_errors=True)
-        return code, open("/tmp/vs-out.txt").read()[-1500:]
+        return code, open("/tmp/vs-out-%s%s.txt" % (pid, var)).read()[-1500:]
     copies, cmd = info
     placed = []
     for f, d in copies:
@@ -63,11 +69,11 @@ def run_demo():
     if not cmd:
         cmd = GO + " test -vet=off -count=1 ./" + copies[0][1] + "/"
     cmd = re.sub(r"\s+#.*$", "", cmd).replace("<repo>", wt)
-    rc2, out2 = sh("bash -c '%s > /tmp/vs-out.txt 2>&1; echo $?'" % cmd.replace("'", "'\\''"), cwd=wt, timeout=1800)
+    rc2, out2 = sh("bash -c '%s > /tmp/vs-out-%s%s.txt 2>&1; echo $?'" % (cmd.replace("'", "'\\''"), pid, var), cwd=wt, timeout=1800)
     code = int(out2.strip().splitlines()[-1])
     for p in placed:
         os.remove(p)
-    return code, open("/tmp/vs-out.txt").read()[-1500:]
+    return code, open("/tmp/vs-out-%s%s.txt" % (pid, var)).read()[-1500:]
 
 
 res = {"property": pid, "variant": var}
@@ -94,7 +100,7 @@ print(json.dumps({k: v for k, v in res.items() if k != "demo_output_with_change_
 if not res["demo_passes_without_change"]:
     print(out0)
 if ok:
-    dst = "/verif/seeded/%s-%s" % (pid, var)
+    dst = "/verif/seeded/%s-%s" % (pid, NAME)
     shutil.rmtree(dst, ignore_errors=True)
     os.makedirs(dst)
     shutil.copy(os.path.join(src, "patch.diff"), dst)
